@@ -33,7 +33,7 @@ class Job:
                  config='le', loop_contracts=None, owners=None, clause_map=None,
                  timeout=600, solver=None, extra_cbmc=(), extra_cc=(), canary=True,
                  function=None, kind='', replay=None, bounded=None, includes=(), ignore_funcs=(),
-                 assumptions=(), unwindset=None, no_dfcc=False, obj_bits=None, chunk=None, chunk_par=1):
+                 assumptions=(), unwindset=None, no_dfcc=False, obj_bits=None, chunk=None, chunk_par=1, unwind=None):
         self.name = name
         self.src = src                  # text of the harness translation unit
         self.sources = list(sources)    # repository sources (relative to REPO) compiled in unmodified
@@ -60,6 +60,7 @@ class Job:
         self.no_dfcc = no_dfcc          # plain harness with assertions only (pure spec lemmas)
         self.obj_bits = obj_bits
         self.chunk_par = chunk_par
+        self.unwind = unwind            # {function: bound}: BOUNDED stand-in, resolved to --unwindset on the instrumented binary
         self.chunk = chunk              # solve the CBMC properties in groups of this size with --slice-formula
 
     def ident(self):
@@ -303,6 +304,18 @@ def run_job(job, workroot, keep=False):
             if ('warning' in ll or 'unsound' in ll or 'ignoring' in ll) and 'no body for function' not in ll:
                 res.warnings.append('goto-instrument: ' + l.strip()[:200])
         target = b_gb
+    if job.unwind:
+        rc, sl, _ = _run(['goto-instrument', '--show-loops', target], wd, 120, res.cmds)
+        names = []
+        for m in re.finditer(r'^Loop (\S+)\.(\d+):\n\s+file (\S+) line (\d+) function (\S+)', sl, re.M):
+            for fn, bound in job.unwind.items():
+                if m.group(1) == fn or m.group(1).startswith(fn + '_wrapped') or m.group(5) == fn:
+                    names.append('%s.%s:%d' % (m.group(1), m.group(2), bound))
+        if not names:
+            res.reason = 'bounded stand-in: loops of %s not found in the instrumented binary' % list(job.unwind)
+            res.wall = time.time() - t0
+            return res
+        job.unwindset = ','.join(sorted(set(names)))
     cb = ['cbmc', target] + CBMC_CHECKS + ['--json-ui'] + job.extra_cbmc
     if job.no_dfcc:
         cb += ['--function', job.entry]
